@@ -59,7 +59,17 @@ def empty_map_silent(case, msg, observed=None):
     return n == 0
 
 
-MATCHERS = {f.__name__: f for f in (waiter_with_edge_default, ambiguous_cycle_entry, empty_map_silent)}
+def viz_renamed_boundary(case, msg, observed=None):
+    """A drawing is unfaithful only around a value that has different names inside and outside a nested graph
+    (GraphNode.with_inputs / with_outputs): the same graph without those renames ('twin') draws faithfully, and every
+    problem is a dependency or graph input not drawn / an edge without dependency / an edge to an undeclared DATA node."""
+    if not isinstance(observed, dict) or not observed.get("renames") or not observed.get("twin_clean"):
+        return False
+    probs = observed.get("problems") or []
+    return bool(probs) and all(p.get("code") in (3, 4, 14, 5, 15, 7) for p in probs)
+
+
+MATCHERS = {f.__name__: f for f in (waiter_with_edge_default, ambiguous_cycle_entry, empty_map_silent, viz_renamed_boundary)}
 
 
 def classify(ctx, case, msg, observed=None):
